@@ -603,3 +603,33 @@ def retained_delivery_has_an_id(chk, ctx, rule):
                key="EventDispatcher.dispatch | the delivery is retained under `%s`, which is None for a message without a message id" % " / ".join(norm(e) for e in srcs), where=ed.line(s),
                message="all id-less in-flight events share the key None: acknowledging one acknowledges another's delivery, the later ones are never acknowledged; task requests go out "
                        "without a correlation id (the reply consumer raises on None.endswith) and a terminal first state is never acknowledged (`if id != None`)")
+
+
+# ---------------------------------------------------------------------------------------------------------------------
+# C10.R9 (D77, open, one key per front end): a definition is stored only if its PARSED value is a non-empty definition. CreateStateMachine tests the
+# parsed value (`not (name and definition and role_arn)` after json.loads); UpdateStateMachine tests the request text, parses, and stores.
+def stored_definition_is_nonempty(chk, ctx):
+    n = 0
+    for mname in ("rest_api", "rest_api_asyncio"):
+        m = ctx.mod(mname)
+        for q, f in sorted(m.funcs.items()):
+            if not (q.endswith("aws_api_UpdateStateMachine") or q.endswith("aws_api_CreateStateMachine")):
+                continue
+            parses = [s for s in _walk_no_nested(f.node) if isinstance(s, ast.Assign) and isinstance(s.targets[0], ast.Name) and s.targets[0].id == "definition"
+                      and isinstance(s.value, ast.Call) and last(callname(s.value) or "") == "loads"]
+            if not parses:
+                continue
+            p0 = min(s.lineno for s in parses)
+            # where the parsed value is put into what gets stored
+            stores = [s for s in _walk_no_nested(f.node) if isinstance(s, ast.Assign) and s.lineno > p0 and (
+                (isinstance(s.targets[0], ast.Subscript) and const(s.targets[0].slice) == "definition" and norm(s.value) == "definition") or
+                (isinstance(s.value, ast.Dict) and any(const(k) == "definition" and norm(v) == "definition" for k, v in zip(s.value.keys, s.value.values))))]
+            for st_ in stores:
+                n += 1
+                guards = [i for i in _walk_no_nested(f.node) if isinstance(i, ast.If) and p0 < i.lineno < st_.lineno and any(isinstance(r, ast.Return) for r in i.body)
+                          and isinstance(i.test, ast.UnaryOp) and isinstance(i.test.op, ast.Not) and any(isinstance(x, ast.Name) and x.id == "definition" for x in ast.walk(i.test))]
+                chk.ob("C10.R9", "%s stores a definition only if its parsed value is non-empty" % q, bool(guards), "",
+                       key="%s.%s | the parsed definition is stored without a test that it is non-empty" % (mname, q), where=m.line(st_),
+                       message="`definition` = \"{}\" / \"null\" / \"[]\" / \"0\" passes the presence test (made on the text), is parsed to a falsy value and replaces the stored definition: "
+                               "CreateStateMachine refuses the same value; StartExecution then answers 200 and the engine drops the start event ('State Machine does not exist')")
+    chk.floor("C10.R9", n, 4, "places where a parsed definition is stored")
